@@ -199,6 +199,18 @@ def main(tier, seed):
             ("loopstate", scenarios.loop_state_scenarios()), ("rangecache", scenarios.range_cache_scenarios()),
             ("retention", scenarios.closure_retention_scenarios()), ("thrownvalues", scenarios.thrown_value_scenarios()), ("fiberlifetimes", scenarios.fiber_lifetime_scenarios()), ("snippets", scenarios.snippet_scenarios(r2, nsc // 2))]
     nsc_cmp = 0
+    # ... and for programs TLC generates (Gen.tla: loops, per-iteration variables, closures, containers, functions, fibers, blocks):
+    # every behaviour's reachable set at the end against the surviving objects
+    import profiles
+    cfg = profcheck.make_cfg("c16g", ["print", "var", "set", "block", "if", "else", "fn", "call", "call1", "lam", "return", "while", "for", "break",
+                                      "continue", "exprstmt", "arith", "fiber"], 14, names=("a", "b"), fnnames=("f",))
+    gruns, gstats = profiles.generate(cfg, simulate=3000 if tier == "quick" else 40000, seed=seed + 16, module="MC_Gen", tag="c16gen")
+    if gstats.get("violation"):
+        rep.violation("generated loop programs: TLC reports\n%s" % gstats["violation"][:2000], {"tlc": gstats["violation"]})
+    gruns = [r for r in gruns if not r["trig"]]
+    gn, gu = profiles.replay(rep, gruns, [("release", rel), ("dev", dev)], "generated program (loops, closures, fibers)", PROP)
+    rep.coverage["tlc_generated_programs"] = gu
+    nsc_cmp += gn
     for name, progs in fams:
         nsc_cmp += profcheck.run_scenarios(rep, name, progs, [("release", rel), ("dev", dev)], PROP, trace=False)
     rep.coverage["traces_validated_against_impl"] = nrep + ntr + nloops + nsc_cmp
